@@ -584,7 +584,7 @@ def q_sun(tbl):
 
 
 SWITCHES = [("d_period_wallclock", "D60"), ("d_once_md_this_year", "D61"), ("d_float_floor", "D63"),
-            ("d_su_coincidence", "D64"), ("d_md_invalid_raises", "D65"), ("d_newsub_adj_recheck", None), ("d_legacy_gap_recheck", None)]
+            ("d_su_coincidence", "D64"), ("d_md_invalid_raises", "D65"), ("d_newsub_adj_recheck", None), ("d_legacy_gap_recheck", None), ("d_legacy_stop_fault", None)]
 
 
 def spec_features(s):
@@ -674,11 +674,15 @@ def _expr_at(rng, inst, kinds, allow_off=True):
 
 def gen_run_scenario(rng, idx):
     """-> scenario dict without the subsystem"""
-    kinds = ["now", "clock_step2", "now_period", "tod", "clock_slew", "cron_min", "mixed", "dst_cron", "clock_step1", "dst_hourly", "sun",
-             "startup_only", "full", "window", "clock_slew_step"]
+    kinds = ["now", "clock_step2", "combo_hold", "now_period", "tod", "fault_stop", "clock_slew", "cron_min", "mixed", "dst_cron",
+             "clock_step1", "combo_event", "dst_hourly", "sun", "startup_only", "full", "fault_stop", "window", "clock_slew_step", "combo_hold"]
     kind = kinds[idx % len(kinds)]
     if kind.startswith("clock"):
         return gen_clock_scenario(rng, kind)
+    if kind.startswith("combo"):
+        return gen_combo_scenario(rng, kind)
+    if kind == "fault_stop":
+        return gen_fault_stop_scenario(rng, idx)
     base = rng.choice(DST_BASES if kind.startswith("dst") else RUN_BASES)
     if kind not in ("dst_cron", "dst_hourly") and rng.random() < 0.5:
         base = base + dt.timedelta(seconds=rng.randint(0, 3000))
@@ -761,6 +765,60 @@ def gen_run_scenario(rng, idx):
             "base_utc": local_to_utc_us(base), "horizon": horizon + 0.5, "lead": 1.0}
 
 
+def gen_combo_scenario(rng, kind):
+    """One function with @time_trigger AND @state_trigger(state_hold=H) (and @event_trigger): while it waits for the next instant the
+    state expression becomes true and false again (hold periods that complete, that are abandoned, that would end before / after
+    the next instant) and events arrive.  Only the time runs are judged here (trigger_time of every run)."""
+    base = rng.choice(RUN_BASES).replace(second=0) + dt.timedelta(seconds=rng.randint(0, 50))
+    p = rng.choice([4, 6, 10])
+    specs = []
+    r = rng.random()
+    if r < 0.4:
+        e = mk_now_expr(rng, rng.choice([3, 5, 7]) * 10 ** 6)
+        ptxt, pam, _ = mk_amount(rng, p * 10 ** 6, units=[1, 2, 3, 4])
+        specs.append({"kind": "period", "str": f"period({e['str']}, {ptxt})", "s": e, "iv": pam, "e": None})
+    elif r < 0.7:
+        t1 = base + dt.timedelta(seconds=1 + rng.choice([6, 7, 9]))
+        e = mk_expr(rng, t1, base, base, kinds=["none", "full"], allow_off=False)
+        specs.append({"kind": "once", "str": f"once({e['str']})", "e": e})
+        specs.append(mk_spec_now_once(rng, rng.choice([13, 17]) * 10 ** 6))
+    else:
+        specs.append(mk_spec_now_once(rng, rng.choice([6, 8]) * 10 ** 6))
+        specs.append(mk_spec_now_once(rng, rng.choice([14, 19]) * 10 ** 6))
+    hold = rng.choice([2, 2.5, 3, 4.5])
+    hist = []
+    t = 0.0
+    horizon = 24
+    while True:
+        t += rng.choice([0.25, 0.75, 1.25, 2.25])
+        if t > horizon - 4:
+            break
+        hist.append([t, "set", "1"])
+        # abandoned before the hold ends, or kept until after it
+        t += rng.choice([hold * 0.4, hold * 0.4, hold + 0.75, hold + 1.75]) if True else 0
+        t = round(t * 8) / 8 + 0.0625
+        hist.append([t, "set", "0"])
+    if kind == "combo_event":
+        for _ in range(rng.randint(1, 4)):
+            hist.append([round(rng.uniform(0.3, horizon - 3), 2) + 0.003, "ev", rng.randint(1, 9)])
+    return {"specs": specs, "startup": rng.random() < 0.3, "shutdown": rng.random() < 0.5, "noargs": False, "startup_pos": 0,
+            "base_utc": local_to_utc_us(base), "horizon": horizon + 0.5, "lead": 1.0, "state_hold": hold,
+            "event": kind == "combo_event", "history": sorted(hist)}
+
+
+def gen_fault_stop_scenario(rng, idx):
+    """@mqtt_trigger next to @time_trigger(..., "shutdown"); the function is removed while the timer waits; the (injected) MQTT
+    unsubscribe callback raises in half of the scenarios.  Judged: shutdown once at removal, no run after the removal."""
+    base = rng.choice(RUN_BASES).replace(second=0)
+    p = rng.choice([1, 2, 3])
+    e = mk_now_expr(rng, rng.choice([1, 2]) * 10 ** 6)
+    ptxt, pam, _ = mk_amount(rng, p * 10 ** 6, units=[1, 2, 3, 4])
+    specs = [{"kind": "period", "str": f"period({e['str']}, {ptxt})", "s": e, "iv": pam, "e": None}]
+    return {"specs": specs, "startup": rng.random() < 0.3, "shutdown": True, "noargs": False, "startup_pos": 0,
+            "base_utc": local_to_utc_us(base), "horizon": rng.choice([2, 5, 7]) + 0.5, "lead": 1.0, "tail": 3 * p + 1.25,
+            "mqtt": {"pos": rng.choice(["above", "below"]), "fault": idx % 20 == 5 or rng.random() < 0.3}}
+
+
 def gen_clock_scenario(rng, kind):
     """The wall clock falls behind the event loop's monotonic clock during a wait: set back once, set back twice within the
     same wait (the second time while the remainder of the first is being slept), slewed, or both."""
@@ -817,7 +875,9 @@ class RunStream(Stream):
     name = "run"
     rule = ("@time_trigger functions (once(now+x), period(now+a, p[, now+b]), once(h:m:s), once(full date), daily period windows, "
             "cron every n minutes, daily/hourly cron across the America/New_York DST changes of 2024/2025, sunrise/sunset, wall clock "
-            "set back once / twice within one wait / slewed 100-1000 ppm relative to the loop's monotonic clock, "
+            "set back once / twice within one wait / slewed 100-1000 ppm relative to the loop's monotonic clock, the same function also "
+            "carrying @state_trigger(state_hold=...) / @event_trigger with state changes and events during the waits, removal with a "
+            "sibling @mqtt_trigger whose (injected) unsubscribe callback raises, "
             "'startup'/'shutdown' entries and the bare decorator; lists of 1-3) defined in a real HomeAssistant on the virtual "
             "clock whose wall clock is derived from virtual UTC through zoneinfo; each scenario under the legacy and the default "
             "decorator subsystem; every run is recorded with its virtual time and trigger_time, every timer_trigger_next call "
@@ -832,7 +892,7 @@ class RunStream(Stream):
     shard_size = 40
 
     def budget(self, tier):
-        return 60 if tier == "quick" else 600
+        return 80 if tier == "quick" else 800
 
     def prelude(self, ctx, findings, witness_terms):
         # D62 is measured on its witness; the switches of the "next" stream follow their listed status
@@ -843,7 +903,7 @@ class RunStream(Stream):
                 sw.append(f"{field} := {q.boolean(allf.get(fid) == 'open')}")
         lines = [f"Definition pv_tz : tzdata := {tz_coq()}."]
         st = {f["id"]: f.get("status", "") for f in findings}
-        for field, fid in (("d_newsub_adj_recheck", "D62"), ("d_legacy_gap_recheck", "D66")):
+        for field, fid in (("d_newsub_adj_recheck", "D62"), ("d_legacy_gap_recheck", "D66"), ("d_legacy_stop_fault", "D67")):
             if st.get(fid) == "open" and fid in witness_terms:
                 lines.append(f"Definition pv_w_{fid} := {witness_terms[fid]}.")
                 sw.append(f"{field} := negb (rcase_spec_ok pv_tz pv_w_{fid})")
@@ -882,15 +942,17 @@ class RunStream(Stream):
         calls = q.lst("(%s, %s, %s)" % (q.Z(c["mono"]), q.Z(c["now"]), q_nobs(c)) for c in obs["calls"])
         return ("{| rc_legacy := %s; rc_specs := %s; rc_startup := %s; rc_shutdown := %s; rc_su := %s; rc_def_utc := %s; "
                 "rc_remove_utc := %s; rc_sun := %s; rc_calls := %s; rc_runs := %s; rc_wellformed := %s; "
-                "rc_base := %s; rc_ppm := %s; rc_steps := %s |}") % (
+                "rc_base := %s; rc_ppm := %s; rc_steps := %s; rc_stop_fault := %s; rc_end_utc := %s |}") % (
             q.boolean(case["legacy"]), q.lst(q_spec(s) for s in case["specs"]), q.boolean(case["startup"] or case["noargs"]),
             q.boolean(case["shutdown"] and not case["noargs"]), q.Z(su), q.Z(obs["def_utc"]), q.Z(obs["remove_utc"]),
             q_sun(obs["sun"]), calls, q.lst(runs), q.boolean(not bad),
-            q.Z(obs["base"]), q.Z(obs["ppm"]), q.lst("(%s, %s)" % (q.Z(a), q.Z(d)) for a, d in obs["steps"]))
+            q.Z(obs["base"]), q.Z(obs["ppm"]), q.lst("(%s, %s)" % (q.Z(a), q.Z(d)) for a, d in obs["steps"]),
+            q.boolean(bool(case.get("mqtt", {}).get("fault"))), q.Z(obs["end_utc"]))
 
     def key(self, case):
         return (f"{case['legacy']}|" + "|".join(s["str"] for s in case["specs"]) + f"|{case['base_utc']}|{case['horizon']}|"
-                f"{case['startup']}{case['shutdown']}{case['noargs']}|{case.get('ppm', 0)}|{case.get('steps', [])}")
+                f"{case['startup']}{case['shutdown']}{case['noargs']}|{case.get('ppm', 0)}|{case.get('steps', [])}|"
+                f"{case.get('state_hold')}|{case.get('history')}|{case.get('mqtt')}")
 
     def nontrivial(self, case, obs):
         return any(not isinstance(k, str) for _u, k, _t in obs["runs"])
@@ -902,6 +964,10 @@ class RunStream(Stream):
             clock += f"/wall set back x{len(case['steps'])}"
         if case.get("ppm"):
             clock += "/slewed"
+        if case.get("state_hold") is not None:
+            clock += "/+state_hold" + ("+event" if case.get("event") else "")
+        if case.get("mqtt"):
+            clock += "/+mqtt " + case["mqtt"]["pos"] + (" unsubscribe raises" if case["mqtt"].get("fault") else "")
         return ("legacy" if case["legacy"] else "default") + ":" + ks + clock
 
     def describe(self, case, obs):
@@ -910,6 +976,9 @@ class RunStream(Stream):
                 "base_utc": str(from_us(case["base_utc"])), "horizon_s": case["horizon"],
                 "wall_clock": {"slew_ppm": case.get("ppm", 0), "steps_at_elapsed_s_by_s": [[a / 1e6, d / 1e6] for a, d in case.get("steps", [])]},
                 "wall_at_run": [str(from_us(w)) for w in obs.get("walls", [])][:12],
+                "siblings": {"state_hold": case.get("state_hold"), "event_trigger": bool(case.get("event")), "mqtt": case.get("mqtt"),
+                             "history_elapsed_s": case.get("history")},
+                "sibling_runs": [[str(from_us(u)), t] for u, t in obs.get("other_runs", [])][:12], "reload_exception": obs.get("reload_exc"),
                 "runs": [[str(from_us(u)), k if isinstance(k, str) else str(from_us(k))] for u, k, _t in obs["runs"]][:12],
                 "n_calls": len(obs["calls"]), "log": obs.get("errors")}
 
